@@ -160,3 +160,30 @@ package initializer
 //@ site initializer.buildPack($pack, $img, $map)
 //@   assert [C20:matched-against-the-index-of-its-kind] (typeis($pack, *v1.Provider) ==> $map == pMap) && (typeis($pack, *v1.Configuration) ==> $map == cMap) && (typeis($pack, *v1.Function) ==> $map == fMap)
 //@   assert [C20:index-complete-when-consulted] (typeis($pack, *v1.Provider) ==> PIDX(len(pl.Items))) && (typeis($pack, *v1.Configuration) ==> CIDX(len(cl.Items))) && (typeis($pack, *v1.Function) ==> FIDX(len(fl.Items)))
+
+// C20 (CA bundle): every core CRD with a conversion webhook and every webhook of every webhook
+// configuration is applied carrying the serving certificate currently stored in the TLS secret
+// (key tls.crt), whatever client configuration the manifest came with.
+//@ func (*initializer.CoreCRDs).Run
+//@ props C20
+//@ let $secret = arg 3 (client.Reader).Get
+//@ site (*resource.APIPatchingApplicator).Apply(_, _, $o)
+//@   assert [C20:applies-the-parsed-crd] $o == crd
+//@   assert [C20:conversion-crd-carries-the-current-ca-bundle] (crd.Spec.Conversion != nil && crd.Spec.Conversion.Strategy == "Webhook") ==>
+//@        (c.WebhookTLSSecretRef != nil && crd.Spec.Conversion.Webhook != nil && crd.Spec.Conversion.Webhook.ClientConfig != nil
+//@         && len(crd.Spec.Conversion.Webhook.ClientConfig.CABundle) > 0
+//@         && crd.Spec.Conversion.Webhook.ClientConfig.CABundle == as($secret, *corev1.Secret).Data["tls.crt"])
+
+//@ func (*initializer.WebhookConfigurations).Run
+//@ props C20
+//@ let $secret = arg 3 (client.Reader).Get
+//@ loop range conf.Webhooks #0
+//@   invariant [C20:validating-webhooks-so-far-carry-the-bundle] forall j :: 0 <= j && j < done ==> as(obj, *admv1.ValidatingWebhookConfiguration).Webhooks[j].ClientConfig.CABundle == caBundle
+//@ loop range conf.Webhooks #1
+//@   invariant [C20:mutating-webhooks-so-far-carry-the-bundle] forall j :: 0 <= j && j < done ==> as(obj, *admv1.MutatingWebhookConfiguration).Webhooks[j].ClientConfig.CABundle == caBundle
+//@ site (*resource.APIPatchingApplicator).Apply(_, _, $o)
+//@   assert [C20:bundle-is-the-current-serving-certificate] len(caBundle) > 0 && caBundle == as($secret, *corev1.Secret).Data["tls.crt"]
+//@   assert [C20:every-validating-webhook-carries-the-current-ca-bundle] typeis($o, *admv1.ValidatingWebhookConfiguration) ==>
+//@        forall j :: 0 <= j && j < len(as($o, *admv1.ValidatingWebhookConfiguration).Webhooks) ==> as($o, *admv1.ValidatingWebhookConfiguration).Webhooks[j].ClientConfig.CABundle == caBundle
+//@   assert [C20:every-mutating-webhook-carries-the-current-ca-bundle] typeis($o, *admv1.MutatingWebhookConfiguration) ==>
+//@        forall j :: 0 <= j && j < len(as($o, *admv1.MutatingWebhookConfiguration).Webhooks) ==> as($o, *admv1.MutatingWebhookConfiguration).Webhooks[j].ClientConfig.CABundle == caBundle
